@@ -101,6 +101,11 @@ class C04(props.Prop):
             if rng.random() < 0.3:
                 text = text.rstrip('\n') + rng.choice([' foo', ' (assert', ' "abc'])
                 dmg.append('eof_tail')
+        if rng.random() < 0.05:
+            # nesting deeper than the interpreter's recursion limit
+            text, k = gen_input.damage(rng, text, 'deep_nest')
+            dmg.append(k)
+            kind = 'damaged' if kind == 'wf' else kind
         spec = workload.base_spec(rng,
                                   jobs=(1, 1, 2, 3),
                                   model_style=rng.choice(
@@ -138,25 +143,32 @@ class C04(props.Prop):
                        'BinaryReduction', 'EliminateVariable',
                        'ArithmeticSimplifyConstant', 'BVSimplifyConstants',
                        'SortChildren']
-            pick = rng.choice(popular) if rng.random() < 0.5 else rng.choice(
+            pick = rng.choice(popular) if rng.random() < 0.6 else rng.choice(
                 names)
+            strat = spec['opts'][spec['opts'].index('--strategy') + 1] \
+                if '--strategy' in spec['opts'] else 'hybrid'
+            # call sites of the mutator hooks (names of the calling
+            # functions as they appear in a frame: private names unmangled)
+            sites = {'ddmin': ['__filter', '__get_substs'],
+                     'hierarchical': ['__mutate_node'],
+                     'hybrid': ['__filter', '__get_substs', '__mutate_node',
+                                '__mutate_node']}[strat]
             spec['faults'] = {
                 'mutator': {
-                    'cls': pick if pick in names else rng.choice(names),
-                    'from': rng.choice([1, 1, 2, 5, 20, 100, 400, 1500])
-                    if rng.random() < 0.5 else int(2 ** rng.uniform(0, 11)),
+                    # a named class, or the k-th class the run consults
+                    'cls': (pick if pick in names else rng.choice(names))
+                    if rng.random() < 0.55 else '#%d' % rng.choice(
+                        [0, 1, 2, 3, 4, 5, 6, 8, 10, 13, 17, 22]),
+                    # mostly early enough to fire; some late ones
+                    'from': rng.choice([1, 1, 1, 2, 3, 5, 10, 20, 50, 100])
+                    if rng.random() < 0.7 else int(2 ** rng.uniform(0, 11)),
                     # transient failures (a mutator that fails on a few
                     # nodes only) as well as permanent ones
                     'count': rng.choice([None, None, 1, 3, 20]),
                     'meth': rng.choice([None, None, 'filter', 'mutations']),
                     # optionally only calls made from one call site fail
                     # (the strategies consult mutators from several places)
-                    'site': rng.choice([None, None, None, '__next__',
-                                        '_TaskGenerator__filter',
-                                        '_TaskGenerator__get_substs',
-                                        '_Producer__mutate_node',
-                                        'filter_nodes', 'generate',
-                                        '_check_seq', '_worker']),
+                    'site': rng.choice(sites) if rng.random() < 0.4 else None,
                     'exc': rng.choice(['IndexError', 'AttributeError',
                                        'TypeError', 'AssertionError',
                                        'KeyError', 'ValueError']),
@@ -297,19 +309,29 @@ class C04(props.Prop):
                           f'an interrupt produced {len(dl)} diagnostic lines',
                           lines=dl[:6])
         # (d) fault isolation
-        if fired_mut and res.outcome == 'returned' and res.status == 0 and \
+        # with an injected failure of M: fixed point of every mutator but M;
+        # with mutators that raised by themselves (ill-formed input; logged
+        # and swallowed): fixed point of every mutator, where - as in ddSMT -
+        # a raising mutator loses its own remaining proposals at that node
+        if (fired_mut or (natural and scen in ('none', 'mutator'))) and \
+                res.outcome == 'returned' and res.status == 0 and \
                 'hierarchical' in rec.finals and not interrupted:
-            M = spec['faults']['mutator']['cls']
-            saved = probes.CTX.faults
-            n, acc, why = enumerate_fixpoint(res, spec, exclude=(M, ))
+            M = (getattr(res, 'mut_target', None)
+                 or spec['faults']['mutator']['cls']) if fired_mut else None
+            n, acc, why = enumerate_fixpoint(res, spec,
+                                             exclude=(M, ) if M else ())
             v.probes['isolation_proposals_judged'] += n
+            v.probes['isolation_runs.' + ('injected' if M else 'natural')] += 1
             if acc is not None:
+                who = f'mutator {M} failing' if M else \
+                    f'{natural} mutator failures logged during the run'
                 v.violate(
-                    'fault-isolation', 'C04:fault-isolation',
-                    f'with mutator {M} failing, the result is not a fixed '
+                    'fault-isolation', 'C04:fault-isolation' +
+                    ('' if M else ':natural'),
+                    f'with {who}, the result is not a fixed '
                     f'point of the other mutators: "{acc["mutator"]}" at node '
                     f'{acc["node"]} is accepted - the failure cost more than '
-                    f'{M}\'s candidates', **acc)
+                    f'the failing mutator\'s candidates', **acc)
         v.nontrivial = bool(scen != 'none' or spec.get('damage') or natural)
         v.sample = {
             'opts': spec['opts'],
